@@ -8,7 +8,7 @@ LEAN_MODULE = 'QM.Props.C13'
 THEOREMS = ['Cv.C13_one_per_name', 'Cv.C13_first_wins', 'Cv.C13_merge_order', 'Cv.C13_dropin_dirs', 'Cv.C13_dropins_one_per_name',
             'Cv.C13_dropins_first_dir_wins', 'Cv.C13_dropins_complete', 'Cv.C13_dropins_name_order', 'Cv.C13_split_equiv', 'Cv.C13_split_histories',
             'Parse.entriesOf_eraseSects', 'Parse.nodup_eraseSects', 'Cv.C13_split_exact', 'Cv.C13_split_same_services', 'Parse.eraseSects_eq_merge',
-            'MM.merge_extend', 'MM.modify_comm', 'Parse.addEntries_eq_modify']
+            'MM.merge_extend', 'MM.modify_comm', 'Parse.addEntries_eq_modify', 'Cv.C13_dropin_failure_never_forgotten', 'Cv.C13_dropins_all_load', 'Cv.mergeStep_sticky']
 ASSUMPTIONS = [
     'the directory tree is abstract (Cv.Tree); walkdir/read_dir are third-party behaviour represented by the listing order of the tree; within one directory the order is unspecified, so generated trees hold at most one copy of a name per search root',
     'Cv.runTree (search dirs with sub-directories, first-seen-wins, drop-in collection and merge, then the conversion loop) is compared with real --dry-run runs of the binary on generated trees (services printed, counts of load / drop-in / conversion errors)',
